@@ -372,6 +372,10 @@ class Check:
             log("  " + desc.replace("\n", "\n  ")[:2000])
         if self.violations:
             return 1
+        if not cov["traces_validated_against_impl"] and not cov["evaluations"]:
+            # nothing of the real code was observed (a driver that died early behind a listed finding, ...): no verdict
+            log("MACHINERY-ERROR property=%s: the check ended without having evaluated the real code at all" % self.pid)
+            return 2
         log("OK property=%s tier=%s seed=%d states=%d traces=%d evaluations=%d wall=%.1fs" % (
             self.pid, self.tier, self.seed, cov["states"], cov["traces_validated_against_impl"],
             cov["evaluations"], time.time() - self.t0))
